@@ -69,6 +69,8 @@ type ReturnPoint struct {
 }
 
 type Exec struct {
+	fnIdx  map[*ssa.Function]int
+	valSeq map[ssa.Value]int64
 	pureSpecDone map[*Term]bool
 	fdDone map[*Term]bool
 	puApps []puApp
@@ -404,10 +406,77 @@ func (x *Exec) succOf(loops []*Loop, b, s *ssa.BasicBlock, ctx []ctxEnt) vsucc {
 // ---- running a function ---------------------------------------------------------------------------
 
 // runBody symbolically executes fn from the given entry state (parameters already bound).
+// registerFn numbers the values of fn (in source order) so that maps keyed by SSA values can be walked in a fixed
+// order: term and fresh-name creation must not depend on Go's map iteration order, or the generated scripts -- and
+// with them the solvers' running times -- would differ from run to run.
+func (x *Exec) registerFn(fn *ssa.Function) {
+	if x.fnIdx == nil {
+		x.fnIdx = map[*ssa.Function]int{}
+		x.valSeq = map[ssa.Value]int64{}
+	}
+	if _, ok := x.fnIdx[fn]; ok {
+		return
+	}
+	idx := len(x.fnIdx)
+	x.fnIdx[fn] = idx
+	seq := int64(0)
+	add := func(v ssa.Value) {
+		seq++
+		x.valSeq[v] = int64(idx)<<32 | seq
+	}
+	for _, p := range fn.Params {
+		add(p)
+	}
+	for _, fv := range fn.FreeVars {
+		add(fv)
+	}
+	for _, b := range fn.Blocks {
+		for _, ins := range b.Instrs {
+			if v, ok := ins.(ssa.Value); ok {
+				add(v)
+			}
+		}
+	}
+}
+
+func (x *Exec) sortedRegKeys(m map[ssa.Value]Val) []ssa.Value {
+	ks := make([]ssa.Value, 0, len(m))
+	for k := range m {
+		ks = append(ks, k)
+	}
+	sort.Slice(ks, func(i, j int) bool {
+		a, b := x.valSeq[ks[i]], x.valSeq[ks[j]]
+		if a != b {
+			return a < b
+		}
+		return ks[i].Name() < ks[j].Name()
+	})
+	return ks
+}
+
+func sortedCellKeys(m map[*Object]Val) []*Object {
+	ks := make([]*Object, 0, len(m))
+	for k := range m {
+		ks = append(ks, k)
+	}
+	sort.Slice(ks, func(i, j int) bool { return ks[i].ID < ks[j].ID })
+	return ks
+}
+
+func sortedGhostKeys(m map[string]Val) []string {
+	ks := make([]string, 0, len(m))
+	for k := range m {
+		ks = append(ks, k)
+	}
+	sort.Strings(ks)
+	return ks
+}
+
 func (x *Exec) runBody(fn *ssa.Function, entry *State) {
 	if len(fn.Blocks) == 0 {
 		x.fail("function %s has no body", fn.String())
 	}
+	x.registerFn(fn)
 	loops := findLoops(fn)
 	nodes := map[nodeKey]*vnode{}
 	var order []*vnode
@@ -499,13 +568,13 @@ func (x *Exec) mergeStates(b *ssa.BasicBlock, ins []*inEdge) *State {
 		}
 		return acc, have
 	}
-	for k := range ins[0].St.Regs {
+	for _, k := range x.sortedRegKeys(ins[0].St.Regs) {
 		k := k
 		if v, ok := mergeVals(func(s *State) (Val, bool) { v, ok := s.Regs[k]; return v, ok }); ok {
 			st.Regs[k] = v
 		}
 	}
-	for k := range ins[0].St.Cells {
+	for _, k := range sortedCellKeys(ins[0].St.Cells) {
 		k := k
 		if v, ok := mergeVals(func(s *State) (Val, bool) { v, ok := s.Cells[k]; return v, ok }); ok {
 			st.Cells[k] = v
@@ -516,7 +585,7 @@ func (x *Exec) mergeStates(b *ssa.BasicBlock, ins []*inEdge) *State {
 			}
 		}
 	}
-	for k := range ins[0].St.Ghost {
+	for _, k := range sortedGhostKeys(ins[0].St.Ghost) {
 		k := k
 		if v, ok := mergeVals(func(s *State) (Val, bool) { v, ok := s.Ghost[k]; return v, ok }); ok {
 			st.Ghost[k] = v
@@ -683,7 +752,12 @@ func (x *Exec) cutLoopAtHeader(fn *ssa.Function, l *Loop, spec *LoopSpec, st *St
 	}
 	mods := x.loopMods(l, st)
 	var havockedSlices []SliceVal
+	modObjs := make([]*Object, 0, len(mods.objs))
 	for obj := range mods.objs {
+		modObjs = append(modObjs, obj)
+	}
+	sort.Slice(modObjs, func(i, j int) bool { return modObjs[i].ID < modObjs[j].ID })
+	for _, obj := range modObjs {
 		cur, isSlice := st.Cells[obj].(SliceVal)
 		if !isSlice && strings.Contains(obj.T.String(), "strings.Builder") {
 			isSlice = true
@@ -716,7 +790,12 @@ func (x *Exec) cutLoopAtHeader(fn *ssa.Function, l *Loop, spec *LoopSpec, st *St
 			x.assume(o.Lt(hs.Reg, na))
 		}
 	}
+	ghostNames := make([]string, 0, len(mods.ghost))
 	for g := range mods.ghost {
+		ghostNames = append(ghostNames, g)
+	}
+	sort.Strings(ghostNames)
+	for _, g := range ghostNames {
 		if v, ok := st.Ghost[g]; ok {
 			st.Ghost[g] = x.freshLike(fmt.Sprintf("loop%d.%s", l.Ordinal, g), v)
 		}
